@@ -16,6 +16,7 @@ import os
 import random
 import re
 import shutil
+import signal
 import subprocess
 import sys
 import tempfile
@@ -59,15 +60,89 @@ def run_cli(root: Path, case):
         env["PYTHONPATH"] = os.environ["PYTHONPATH"]
     (d / ".home").mkdir(exist_ok=True)
     cmd = [sys.executable, "-m", "rattr", *case["opts"], case["target"]]
+    if case.get("culprit_wrapper"):
+        cmd = [sys.executable, "-c", CULPRIT_WRAPPER, *case["opts"], case["target"]]
     t0 = time.time()
+    p = subprocess.Popen(cmd, cwd=str(d), stdout=subprocess.PIPE, stderr=subprocess.PIPE, env=env)
     try:
-        p = subprocess.run(cmd, cwd=str(d), capture_output=True, timeout=TIMEOUT_S, env=env)
-        rc, out, err, to = p.returncode, p.stdout.decode("utf-8", "replace"), p.stderr.decode("utf-8", "replace"), False
-    except subprocess.TimeoutExpired as e:
-        rc, out, err, to = None, (e.stdout or b"").decode("utf-8", "replace"), (e.stderr or b"").decode("utf-8", "replace"), True
+        o, e = p.communicate(timeout=TIMEOUT_S)
+        rc, to = p.returncode, False
+    except subprocess.TimeoutExpired:
+        # ask the interpreter where it is stuck (KeyboardInterrupt traceback), then make sure it is gone
+        to, rc = True, None
+        p.send_signal(signal.SIGINT)
+        try:
+            o, e = p.communicate(timeout=5)
+        except subprocess.TimeoutExpired:
+            p.kill()
+            o, e = p.communicate()
+    out, err = o.decode("utf-8", "replace"), e.decode("utf-8", "replace")
     dt = time.time() - t0
     shutil.rmtree(d, ignore_errors=True)
     return rc, out, err, to, dt
+
+
+# Second, diagnostic run for one signature family only (the `assert module_name == confirmed_module_name`
+# of the root context builder): the same command line through runpy with an excepthook that prints the
+# locals of the failing frame, so the signature can say WHICH relative import tripped the assert.
+CULPRIT_WRAPPER = r"""
+import sys, json, runpy
+def hook(t, e, tb):
+    last = tb
+    while last.tb_next:
+        last = last.tb_next
+    loc = last.tb_frame.f_locals
+    node = loc.get("node")
+    info = {"module_name": loc.get("module_name"), "confirmed": loc.get("confirmed_module_name"),
+            "level": getattr(node, "level", None), "module": getattr(node, "module", None)}
+    try:
+        from rattr.config import Config
+        info["file"] = str(Config().state.current_file)
+    except Exception:
+        info["file"] = None
+    sys.stderr.write("C07-CULPRIT " + json.dumps(info) + "\n")
+    sys.__excepthook__(t, e, tb)
+sys.excepthook = hook
+sys.argv = ["rattr"] + sys.argv[1:]
+runpy.run_module("rattr", run_name="__main__", alter_sys=True)
+"""
+
+ASSERT_SIGS = ("unhandled:AssertionError:RootContextBuilder.visit_relative_import",
+               "unhandled:AssertionError:RootContextBuilder.visit_starred_relative_import")
+
+
+def relative_import_class(root: Path, case):
+    """Class of the relative import that tripped the assert, judged by Python's own rule
+    (importlib.util.resolve_name on the importing file's package):
+      escapes-top-level : Python itself refuses it ("beyond top-level package" / no parent package)
+      module-missing    : rattr derived the name Python would, the module just does not exist
+      derived-wrongly   : rattr derived another name than Python
+      outside-project   : the importing file is not part of the project (site-packages / stdlib)"""
+    import importlib.util
+
+    rc, out, err, to, dt = run_cli(root, dict(case, culprit_wrapper=True))
+    m = re.search(r"^C07-CULPRIT (\{.*\})$", err, re.M)
+    if not m:
+        return "unclassified"
+    info = json.loads(m.group(1))
+    f = info.get("file") or ""
+    rel = Path(f)
+    if rel.is_absolute():
+        # the diagnostic run used its own temp dir: keep the part below it
+        parts = rel.parts
+        idx = [i for i, x in enumerate(parts) if x.startswith("p") and (Path(*parts[: i + 1]).parent == root)]
+        if not idx:
+            return "outside-project"
+        rel = Path(*parts[idx[0] + 1:])
+    if "site-packages" in rel.parts or rel.parts[:1] in (("usr",), ("root",)):
+        return "outside-project"
+    package = ".".join(rel.parts[:-1])
+    name = "." * int(info.get("level") or 0) + (info.get("module") or "")
+    try:
+        resolved = importlib.util.resolve_name(name, package)
+    except (ImportError, ValueError):
+        return "escapes-top-level"
+    return "module-missing" if resolved == info.get("module_name") else "derived-wrongly"
 
 
 _QUAL_CACHE = {}
@@ -181,9 +256,13 @@ def stdout_ok(out: str, opts):
 
 def classify(rc, out, err, timed_out, opts):
     """-> (class, signature or None, detail)"""
-    if timed_out:
-        return "timeout", "timeout", ""
     clean = ANSI.sub("", err)
+    if timed_out:
+        # SIGINT was sent at the deadline: the KeyboardInterrupt traceback says where rattr was spinning
+        if "Traceback (most recent call last)" in clean:
+            _, fn = parse_traceback(clean)
+            return "timeout", f"timeout:{fn}", clean[-1500:]
+        return "timeout", "timeout", clean[-600:]
     if "Traceback (most recent call last)" in clean:
         exc, fn = parse_traceback(clean)
         return "traceback", f"unhandled:{exc}:{fn}", clean[-1500:]
@@ -265,7 +344,86 @@ def corpus():
     add("control-threshold", {"target.py": "def f(a):\n    def g():\n        pass\n"}, ["--threshold", "1"])
     add("control-missing-target", {"other.py": F1})
     C.extend(cross_corpus())
+    C.extend(long_name_corpus())
+    C.extend(escaping_import_corpus())
     return C
+
+
+def long_name_corpus():
+    """Termination of the `rattr_results` name validator: long dotted / bracketed names, valid and invalid only
+    near their end, in every slot of the annotation (a backtracking validator spins on the invalid ones)."""
+    comps = ["request", "session", "current_user_profile", "notification_preferences", "delivery_channels", "fallback_address"]
+    dotted = ".".join(comps * 5)                                   # 30 components
+    bracketed = ".".join(f"{c}[]" if i % 2 else f"{c}()" for i, c in enumerate(comps * 4))
+    flat = "a_very_long_identifier_without_any_dots_" * 3
+    names = {"dotted": dotted, "bracketed": bracketed, "flat": flat, "starred": "*" + dotted, "literal": "@" + flat}
+    tails = {"valid": "", "space": " ", "hyphen": "-x", "quote": "'", "bang": ".ok!", "dotspace": ". "}
+    out = []
+    for nk, n in names.items():
+        for tk, t in tails.items():
+            if nk in ("starred", "literal") and tk not in ("valid", "space"):
+                continue
+            name = repr(n + t)
+            slots = {
+                "gets": f"@rattr_results(gets={{{name}}})",
+                "sets": f"@rattr_results(sets={{'a.ok', {name}}})",
+                "dels": f"@rattr_results(dels={{{name}}})",
+                "call-target": f"@rattr_results(calls=[({name}, (['a'], {{}}))])",
+                "call-arg": f"@rattr_results(calls=[('helper', ([{name}], {{}}))])",
+                "call-kwarg-key": f"@rattr_results(calls=[('helper', ([], {{{name}: 'a'}}))])",
+                "call-kwarg-value": f"@rattr_results(calls=[('helper', ([], {{'w': {name}}}))])",
+            }
+            for sk, dec in slots.items():
+                if nk not in ("dotted", "bracketed") and sk not in ("gets", "call-arg"):
+                    continue
+                src = ANN + "def helper(z, w=0):\n    return z.s\n" + dec + "\ndef touch(a):\n    return a.x\ndef caller(q):\n    return touch(q)\n"
+                out.append({"row": f"longname:{nk}:{tk}:{sk}", "files": {"target.py": src}, "opts": [], "target": "target.py"})
+    # the same on a class and in a followed import
+    dec = f"@rattr_results(gets={{{(dotted + ' ')!r}}})"
+    out.append({"row": "longname:class", "files": {"target.py": ANN + dec + "\nclass K:\n    def __init__(self, a):\n        self.x = a\n"},
+                "opts": [], "target": "target.py"})
+    out.append({"row": "longname:import", "files": {"target.py": "from lib import touch\ndef caller(q):\n    return touch(q)\n",
+                                                      "lib.py": ANN + dec + "\ndef touch(a):\n    return a.x\n"}, "opts": [], "target": "target.py"})
+    return out
+
+
+def escaping_import_corpus():
+    """Relative imports whose dots climb to / past the top-level package (Python: "attempted relative import
+    beyond top-level package"), levels 1..4, from a script / a module / an __init__, with and without a module of
+    that name higher up; each file analysed as the target and as a followed import."""
+    base = {
+        "app/__init__.py": "", "app/mod.py": "def m(z):\n    return z.m\n", "app/common.py": "def inner_common(z):\n    return z.ic\n",
+        "app/handlers/__init__.py": "", "app/handlers/users.py": "def u(z):\n    return z.u\n",
+        "common/__init__.py": "", "common/auth.py": "def check(token):\n    return token.valid\n", "sib.py": "def f(z):\n    return z.sib\n",
+    }
+    places = [("target.py", None), ("script2.py", "import script2"), ("app/mod.py", "import app.mod"),
+              ("app/handlers/users.py", "from app.handlers.users import create"),
+              ("app/__init__.py", "import app"), ("app/handlers/__init__.py", "import app.handlers")]
+    forms = ["from {d}common.auth import check", "from {d} import common", "from {d}sib import f", "from {d}common import *",
+             "from {d}app import mod", "from {d}nowhere import thing"]
+    out = []
+    for path, importer in places:
+        for level in (1, 2, 3, 4):
+            for fi, form in enumerate(forms):
+                stmt = form.format(d="." * level)
+                body = stmt + "\ndef create(request):\n    return request.user\n"
+                for with_higher in (True, False):
+                    if not with_higher and fi not in (0, 2):
+                        continue
+                    files = dict(base)
+                    if not with_higher:
+                        files = {k: v for k, v in files.items() if not k.startswith("common/") and k != "sib.py"}
+                    files[path] = body
+                    tag = f"escape:{path}:L{level}:{fi}:{'with' if with_higher else 'without'}-higher"
+                    if path != "target.py":
+                        out.append({"row": tag + ":as-target", "files": files, "opts": [], "target": path})
+                    if importer is not None and (fi in (0, 2, 3) or level == 1):
+                        f2 = dict(files)
+                        f2["target.py"] = importer + "\ndef main(request):\n    return request.x\n"
+                        out.append({"row": tag + ":followed", "files": f2, "opts": [], "target": "target.py"})
+                    elif importer is None:
+                        out.append({"row": tag + ":as-target", "files": files, "opts": [], "target": "target.py"})
+    return out
 
 
 UNNAMEABLES = ["(a + b)", "(a if b else x)"]
@@ -486,10 +644,17 @@ def run(tier, seed, build):
             outs = list(ex.map(lambda c: run_cli(tmp, c), cases))
 
         slowest = 0.0
-        for c, (rc, out, err, to, dt) in zip(cases, outs):
+        verdicts = [classify(rc, out, err, to, c["opts"]) for c, (rc, out, err, to, dt) in zip(cases, outs)]
+        # the two `assert module_name == confirmed_module_name` sites: say which relative import it was
+        need = [i for i, v in enumerate(verdicts) if v[1] in ASSERT_SIGS]
+        with ThreadPoolExecutor(max_workers=WORKERS) as ex:
+            classes = list(ex.map(lambda i: relative_import_class(tmp, cases[i]), need))
+        for i, k in zip(need, classes):
+            verdicts[i] = (verdicts[i][0], f"{verdicts[i][1]}[{k}]", verdicts[i][2])
+            res.count("relative-import-class:" + k)
+        for c, (rc, out, err, to, dt), (cls, sig, detail) in zip(cases, outs, verdicts):
             res.evaluations += 1
             slowest = max(slowest, dt)
-            cls, sig, detail = classify(rc, out, err, to, c["opts"])
             res.count(f"{c['kind']}:{cls.split(':')[0]}")
             res.count("class:" + cls)
             for t in c.get("tags") or []:
